@@ -1072,6 +1072,7 @@ package goatlang
 //@   allocates elems(Value)
 //@   ensures !stackArr(arr(result))
 //@   ensures forall j int :: 0 <= j && j < len(result) ==> valid(result[j])
+//@   ensures is(v.value, *sliceT) ==> result == as(v.value, *sliceT).data
 //@ func (Value).String
 //@   property C07
 //@   trusted
@@ -1330,9 +1331,10 @@ package goatlang
 //@   ensures#frame keepsExcept(v, len(v.stack), baseN + int(old(ins(v)).A))
 //@   ensures#next v.frame.N == old(v.frame.N) + int(old(ins(v)).B)
 //@ func (*VM).exec case codeCopy
-//@   property C07
+//@   property C07 C11
 //@   requires need(v, 2) && valid(top(v, 0))
 //@   ensures#delta len(v.stack) == old(len(v.stack)) - 2
+//@   ensures#moved is(old(top(v, 1)).value, *sliceT) && is(old(top(v, 0)).value, *sliceT) && old(top(v, 0)).t.base() == TypeSlice ==> (forall p int :: 0 <= p && p < len(as(old(top(v, 1)).value, *sliceT).data) && p < len(as(old(top(v, 0)).value, *sliceT).data) ==> as(old(top(v, 1)).value, *sliceT).data[p] == old(as(top(v, 0).value, *sliceT).data[p]))
 //@   ensures#next stays(v)
 //@ func (*VM).exec case codeFastCallAttr
 //@   property C07 C09 C02
